@@ -18,6 +18,7 @@ RULE = (
     "array; reads return what the cells show; wrong row count / row reaching past the width / into non-blank content beyond the "
     "region -> some exception and no cell changed. Non-trivial: assignment onto a row with content overlapping or beyond the "
     "region, or growth, in a history of >=2 steps."
+    ' Block-row objects are re-used across assignments (the very same FmtStr/str object assigned again), rows may contain double-width/combining/tab characters (one character per cell), arrays up to 30 columns.'
 )
 ASSUMPTIONS = [
     "neutral zones (statement silent/contradictory): a row longer than the region that only reaches blank cells inside the width; empty regions with non-empty blocks; a[r] = x; column bounds beyond the width",
